@@ -693,10 +693,10 @@ def gen_session(rng, big=False):
     case = {"kind": "sess", "N": N, "L": L, "R": R, "YD": YD, "sflav": sflav, "yflav": rng.choice(["int", "float"])}
     models = []
     for _ in range(rng.choice([1, 2, 2, 3])):
-        kind = rng.choice(["lik3", "lik8", "likw", "likw", "lik01", "logint", "logdy", "logpm"])
+        kind = rng.choice(["lik3", "lik8", "lik8", "likw", "likw", "likw", "lik01", "logint", "logdy", "logpm"])
         m = gen_model(rng, N, L, YD, kind, 1500 if not big else CAP)
         models.append(m)
-        if m["kind"] == "lik" and rng.random() < 0.3:
+        if m["kind"] == "lik" and rng.random() < 0.2:
             models.append(log_twin(m))
     if rng.random() < 0.04:     # an epoch without candidates (outside the statement; error kinds and partial writes are compared)
         m = models[rng.randrange(len(models))]
@@ -721,7 +721,7 @@ def gen_session(rng, big=False):
         if rng.random() < 0.15:
             mP = rng.randrange(len(models))
         need = any(models[x]["kind"] == "log" for x in (mQ, mP))
-        lg = rng.random() < (0.7 if need else 0.25)
+        lg = rng.random() < (0.7 if need else 0.15)
         steps.append({"op": "new", "h": len(objs), "log": lg, "mS": mS, "mQ": mQ, "mP": mP,
                       "via": rng.choice(["ctor", "ctor", "setter", "ctor-pos"]), "stat": rng.random() < 0.3,
                       "always_setlog": rng.random() < 0.5})
@@ -808,7 +808,7 @@ def gen_session(rng, big=False):
         elif o["sticky"]:
             logarg = rng.choice([None, False, True])      # the declaration of an earlier call: either reading is accepted
         else:
-            logarg = rng.choice([None, None, False, True])
+            logarg = rng.choice([None, None, None, False, False, True])
         steps.append({"op": "est", "h": h, "t": t, "obs": names, "logarg": logarg, "mode": mode,
                       "verbose": rng.choice([0] * 12 + [1, 2, 3]), "obs_as_str": rng.random() < 0.5,
                       "mode_explicit": rng.random() < 0.5})
